@@ -18,10 +18,10 @@
 #            topics/exceptions.rst only names GeneratorExit and Interrupt as suppressed.
 # Confidence: medium-low (rare trigger, but the raised TaskClosed is clearly the wrong
 #            exception and not documented).
-import sys; sys.path.insert(0, '/tmp/hunt3')
+import sys; sys.path.insert(0, '/repo')
 import faulthandler; faulthandler.dump_traceback_later(25, exit=True)
 import usim
-assert usim.__file__.startswith('/tmp/hunt3'), usim.__file__
+assert usim.__file__.startswith('/repo'), usim.__file__
 from usim import run, time, Scope, instant, collect
 
 log = []
